@@ -940,6 +940,7 @@ static int run_network(struct vf_rng *r)
 	vf_count("packets_fed", n_pk);
 	vf_count("cells_compared", n_cells); n_cells = 0;
 	vf_count(net_serial ? "networks_serial" : "networks_parallel", 1);
+	vf_count(hdr_pn_off < 0 ? "networks_header_without_page_number" : hdr_pn_off == 21 ? "networks_page_number_flush_against_clock" : "networks_page_number_inside_header", 1);
 	vf_sig("mode=%s open=%d attrs=0x%02x updates=%d order=%d", net_serial ? "serial" : "parallel", maxopen > 3 ? 4 : maxopen,
 	       attr_seen, kinds >> 1, kinds & 1);
 	return (attr_seen || (kinds >> 1)) ? 1 : 0;
